@@ -197,6 +197,12 @@ def basis_spline(  # pylint: disable=dangerous-default-value  # always replaced 
                     else (x <= knots[i + 1])  # Properly handle boundary
                 )
             ).astype(float)
+    nulls = pandas.isnull(x)
+    if numpy.any(nulls):
+        # Comparisons with nan are False: without this a missing value would
+        # yield a row of zeros when `degree` is 0.
+        for i in cache[0]:
+            cache[0][i][nulls] = numpy.nan
     for d in range(1, degree + 1):
         cache[d % 2].clear()
         for i in range(len(knots) - d - 1):
